@@ -19,6 +19,7 @@
 -/
 import PyGqlModel.Lemmas.SdlModelsDefs
 import PyGqlModel.Props.C12_custom_build
+import PyGqlModel.Props.C12_h5
 namespace PyGql.Props.C12
 open PyGql PyGql.Sdl PyGql.SdlPrint PyGql.SdlModels
 open PyGql.SdlText hiding T
@@ -81,6 +82,58 @@ theorem text_roundtrip_string (o : Opts) (s : SchemaD) (apps : Apps)
       docToAst doc = some d ∧ build doc = .ok s' ∧ SameUpToOrder s' s := by
   rw [printSchemaTA_eq_printSchema_of_wfa o s apps hwf]
   exact text_roundtrip_custom_final (optsA o) s apps hwf hb
+
+/-! ### all four options: `include_introspection` at Text level -/
+
+/-- THE STATEMENT for the whole option space (`SdlPrintTA.printSchemaXTA` is the Text-level `printSchemaX`) -/
+def ModelsAgreeXStatement : Prop :=
+  ∀ (o : Opts) (intro : Bool) (b : Builtins) (s : SchemaD) (apps : Apps), appsLexOKX (optsA o) intro b s apps = true →
+    T (printSchemaX o intro b s apps initialCollection).1 = SdlPrintTA.printSchemaXTA (optsA o) intro b s apps
+
+/-- **printSchemaXTA_eq_printSchemaX** — the two models print the same text for ALL FOUR options -/
+theorem printSchemaXTA_eq_printSchemaX : ModelsAgreeXStatement :=
+  fun o intro b s apps h => (printSchemaX_rel o intro b s apps h).2
+
+private theorem appsLexOKX_off (c : SdlPrintTA.OptsA) (hc : c.custom = false) (intro : Bool) (b : Builtins) (s : SchemaD) (apps : Apps) :
+    appsLexOKX c intro b s apps = true := by
+  simp [appsLexOKX, SdlPrintTA.typeAppsOK, SdlPrintTA.fieldAppsOK, SdlPrintTA.argAppsOK, SdlPrintTA.directiveAppsOK, appsOKAt_off c hc]
+
+/-- **printSchemaXTA_eq_printSchemaX_default** — with `include_custom_schema_directives` falsy (the default) there is no
+    hypothesis at all: for every schema, every library constant and `include_introspection` on or off the two models print
+    the same text — in particular the library's own long descriptions, re-wrapped by `wrapped_lines` -/
+theorem printSchemaXTA_eq_printSchemaX_default (o : Opts) (hc : o.custom = false) (intro : Bool) (b : Builtins) (s : SchemaD) (apps : Apps) :
+    T (printSchemaX o intro b s apps initialCollection).1 = SdlPrintTA.printSchemaXTA (optsA o) intro b s apps :=
+  printSchemaXTA_eq_printSchemaX o intro b s apps (appsLexOKX_off _ hc intro b s apps)
+
+/-- without the option the Text-level extended printer is the printer -/
+theorem printSchemaXTA_off (c : SdlPrintTA.OptsA) (b : Builtins) (s : SchemaD) (apps : Apps) :
+    SdlPrintTA.printSchemaXTA c false b s apps = SdlPrintTA.printSchemaTA c s apps := by
+  simp only [SdlPrintTA.printSchemaXTA, SdlPrintTA.printSchemaTA, Bool.false_eq_true, if_false, List.map_nil, List.append_nil,
+    List.nil_append, List.cons_append]
+
+/-- **runHistoryX_texts** — every output of every history of calls with all four options (the histories of
+    `print_pure_all_options`) is the text of the Text model for that call -/
+theorem runHistoryX_texts : ∀ (calls : List (Opts × Bool × Builtins × SchemaD × Apps)),
+    (∀ c ∈ calls, appsLexOKX (optsA c.1) c.2.1 c.2.2.1 c.2.2.2.1 c.2.2.2.2 = true) →
+    (runHistoryX initialCollection calls).map T =
+      calls.map (fun c => SdlPrintTA.printSchemaXTA (optsA c.1) c.2.1 c.2.2.1 c.2.2.2.1 c.2.2.2.2)
+  | [], _ => rfl
+  | c :: rest, h => by
+    have hr := printSchemaX_rel c.1 c.2.1 c.2.2.1 c.2.2.2.1 c.2.2.2.2 (h c (by simp))
+    have ih := runHistoryX_texts rest (fun x hx => h x (by simp [hx]))
+    have h1 : (printSchemaX c.1 c.2.1 c.2.2.1 c.2.2.2.1 c.2.2.2.2 initialCollection).2 = initialCollection := hr.1
+    simp only [runHistoryX, List.map_cons, h1, ih, hr.2]
+
+/-- a stand-in for the library's constants: one specified directive with a described argument, one introspection type
+    whose description has an over-long line -/
+def demoBuiltins : Builtins :=
+  { specified := [{ name := "skip", locations := ["FIELD"], args := [{ name := "if", type := .nonNull (.named "Boolean"), desc := some "Skipped when true." }] }],
+    introspection := [{ kind := .enum, name := "__TypeKind", desc := some longLine, values := [{ name := "SCALAR", value := .str "SCALAR" }] }] }
+
+set_option maxRecDepth 100000 in
+example : T (printSchemaX {} true demoBuiltins plainShop [] initialCollection).1 =
+    SdlPrintTA.printSchemaXTA (optsA {}) true demoBuiltins plainShop [] :=
+  printSchemaXTA_eq_printSchemaX _ _ _ _ _ (by decide)
 
 /-! ### non-vacuity, and why the hypothesis is there -/
 
